@@ -298,6 +298,24 @@ def run_c16(tier, out):
                 viols.append(({'kind': 'authz', 'policy': 'default', 'route': route, 'method': method, 'caller': caller,
                                'observed': r.status}, '%s %s by %s answered %d although the documented default allows it'
                               % (method, route, caller, r.status)))
+        # the same credentials, in the same process, right after they were granted something: every operation (and, for
+        # GET /usages, every other project) that the documented default denies them must still be denied - a decision
+        # must not outlive the request it was taken for
+        before = ops.canon_dump(app.raw_dump())
+        for caller2, (token2, roles2, proj2) in CALLERS.items():
+            if (token2, roles2) != (token, roles):
+                continue
+            for route, method in oplist:
+                if documented_allowed(route, caller2):
+                    continue
+                r, stmts = issue(app, route, method, token2, roles2, proj2)
+                note(route, method, caller2 + ' after grants to ' + caller, r, 'default')
+                after = ops.canon_dump(app.raw_dump())
+                for msg in check_denied(route, method, caller2, r, stmts, before, after):
+                    viols.append(({'kind': 'authz', 'policy': 'default', 'route': route, 'method': method, 'caller': caller2,
+                                   'after_grants_to': caller, 'version': 39, 'observed': r.status},
+                                  msg + ' (same credentials had just been granted the operations allowed to %s)' % caller))
+                    before = after
         app.close()
     # --- single-rule overrides: the rule of an operation is what grants / denies exactly that operation
     rules = {}
@@ -405,6 +423,13 @@ def replay_c16(path, out):
             out.violation(p, 'without credentials: %d' % r.status)
     else:
         token, roles, proj = CALLERS.get(caller, ('u1:p1', caller.replace('+', ','), 'p1'))
+        if p.get('after_grants_to') in CALLERS:
+            # first everything the documented default grants to these credentials, as in the run
+            t0, r0, p0 = CALLERS[p['after_grants_to']]
+            for route, method in ops_list():
+                if documented_allowed(route, p['after_grants_to']):
+                    issue(app, route, method, t0, r0, p0)
+            before = ops.canon_dump(app.raw_dump())
         r, stmts = issue(app, p['route'], p['method'], token, roles, proj, version=p.get('version', 39))
         if r.status == p['observed']:
             out.violation(p, '%s %s by %s still answers %d' % (p['method'], p['route'], caller, r.status))
